@@ -232,6 +232,10 @@ func randXML(r *RNG, depth int) string {
 	if r.Chance(15) {
 		b.WriteString(` D:k2="w" xmlns:D="DAV:"`)
 	}
+	if r.Chance(12) {
+		// the same local name in no namespace and in a namespace (also the predeclared xml: one), two namespaces
+		b.WriteString(r.Pick([]string{` id="1" q:id="2" xmlns:q="urn:q"`, ` lang="x" xml:lang="en"`, ` q1:ref="r1" q2:ref="r2" xmlns:q1="urn:q1" xmlns:q2="urn:q2"`}))
+	}
 	if r.Chance(15) && depth > 0 {
 		b.WriteString("/>")
 		return b.String()
